@@ -81,7 +81,24 @@ func (e *Engine) verifyFunc(key string) (res *FuncResult) {
 			}
 		}
 	}
+	// a function literal under contract: each captured variable is a private cell holding an arbitrary value of
+	// its type (nothing else writes it while the literal runs: interleaving is not modelled); the contract
+	// refers to the captured variables by name, meaning their values on entry
+	freeVals := map[string]tv{}
+	for _, fv := range fn.FreeVars {
+		et := fv.Type().(*types.Pointer).Elem()
+		v := st.fresh(et, "in|"+fv.Name())
+		st.ncell++
+		cell := &Cell{id: st.ncell, name: fv.Name(), T: et}
+		st.cells[cell] = v
+		fr.bind = append(fr.bind, CellPtr{C: cell})
+		x.inputs = append(x.inputs, toComps(et, v)...)
+		freeVals[fv.Name()] = tv{x.fnTerm(st, v), et}
+	}
 	env := x.contractEnv(st, c, sig, all)
+	for k, v := range freeVals {
+		env.vars[k] = v
+	}
 	env.old, env.oldTop = heapSnap{}, st.top0
 	x.params = env.vars
 	res.entryEnv = env
